@@ -523,3 +523,133 @@ func FileOffsets(b []byte) map[string]int {
 	}
 	return m
 }
+
+// HeaderOnlyNestedVolume: the image holds a nested FFS volume (FV-image section, also inside an
+// opened compressed section) that consists of its header alone - Length equals HeaderLength - while
+// its first block-map entry counts 0 blocks (the shape of the known repack defect, see PC02).
+func HeaderOnlyNestedVolume(b []byte) bool {
+	found := false
+	var vol func(v []byte, nested bool)
+	var secs func(fb []byte, off int)
+	secs = func(fb []byte, off int) {
+		for off < len(fb) {
+			shl, size, ok := secAt(fb, off)
+			if !ok {
+				return
+			}
+			if plain, opened, why := compressedAt(fb, off, shl, size); opened && why == "" {
+				secs(plain, 0)
+			} else if fb[off+3] == 0x17 {
+				vol(fb[off+shl:off+size], true)
+			}
+			off = up(off+size, 4)
+		}
+	}
+	vol = func(v []byte, nested bool) {
+		vi, why := volHeader(v)
+		if why != "" || !vi.ffs {
+			return
+		}
+		if nested && vi.length == vi.hdrLen && binary.LittleEndian.Uint32(v[56:]) == 0 {
+			found = true
+		}
+		v = v[:vi.length]
+		off := vi.dataOff
+		for {
+			hl, size, free := fileAt(v, off, vi.pol)
+			if free || size < hl || off+size > len(v) {
+				break
+			}
+			if fb := v[off : off+size]; sectioned(fb[18]) {
+				secs(fb, hl)
+			}
+			off = up(off+size, 8)
+		}
+	}
+	for _, tv := range TopVolumes(b) {
+		vol(b[tv.Off:tv.Off+tv.Len], false)
+	}
+	return found
+}
+
+// ---------- flash images (descriptor in front of the regions) ----------
+
+// BiosRange locates the BIOS region of an image: for an Intel flash image (descriptor signature
+// 5A A5 F0 0F at offset 16 or 0) the byte range that slot 0 of the region section declares, decoded
+// here from the descriptor map (FLMAP0.FRBA) and the region section without fiano; for any other
+// image (a bare BIOS region) the whole image.
+func BiosRange(b []byte) (lo, hi int, flash bool) {
+	sig := []byte{0x5a, 0xa5, 0xf0, 0x0f}
+	at := -1
+	if len(b) >= 20 && bytes.Equal(b[16:20], sig) {
+		at = 16
+	} else if len(b) >= 4 && bytes.Equal(b[:4], sig) {
+		at = 0
+	}
+	if at < 0 || len(b) < 4096 {
+		return 0, len(b), false
+	}
+	rs := int(b[at+4+2]) * 16 // FLMAP0 bits 16..23: region section base, in 16-byte units
+	if rs+8 > 4096 {
+		return 0, len(b), false
+	}
+	base := int(binary.LittleEndian.Uint16(b[rs+4:]))
+	limit := int(binary.LittleEndian.Uint16(b[rs+6:]))
+	lo, hi = base*4096, (limit+1)*4096
+	if base > limit || hi > len(b) {
+		return 0, len(b), false
+	}
+	return lo, hi, true
+}
+
+// FlashRegionsOK: the regions the descriptor of a flash image declares (slots with base <= limit)
+// lie inside the image behind the descriptor block and do not overlap ("descriptor regions tiling
+// the flash": together with the gaps between them they account for every block once).
+func FlashRegionsOK(b []byte) string {
+	_, _, flash := BiosRange(b)
+	if !flash {
+		return "no-descriptor"
+	}
+	at := 16
+	if !bytes.Equal(b[16:20], []byte{0x5a, 0xa5, 0xf0, 0x0f}) {
+		at = 0
+	}
+	rs := int(b[at+4+2]) * 16
+	// older descriptors say how many regions they declare (FLMAP0.NR, 0 = all slots count); slots
+	// from that index on are not regions even when they look like one
+	nr := int(b[at+4+3])
+	type span struct{ lo, hi int }
+	var sp []span
+	for i := 0; i < 15 && rs+8+4*i <= 4096; i++ {
+		if nr != 0 && i >= nr {
+			break
+		}
+		base := int(binary.LittleEndian.Uint16(b[rs+4+4*i:]))
+		limit := int(binary.LittleEndian.Uint16(b[rs+6+4*i:]))
+		if base > limit || (base == 0 && limit == 0) || base == 0xFFFF {
+			continue // unused slot
+		}
+		s := span{base * 4096, (limit + 1) * 4096}
+		if s.lo < 4096 || s.hi > len(b) {
+			return fmt.Sprintf("region %d outside the flash", i)
+		}
+		for _, o := range sp {
+			if s.lo < o.hi && o.lo < s.hi {
+				return fmt.Sprintf("region %d overlaps another region", i)
+			}
+		}
+		sp = append(sp, s)
+	}
+	return ""
+}
+
+// FileOffsetSets maps "volumeindex/guid/type" to the offsets (in the image) of the non-pad files of
+// the top-level volumes that carry this GUID and type - several when a volume holds duplicates.
+func FileOffsetSets(b []byte) map[string][]int {
+	m := map[string][]int{}
+	for k, off := range FileOffsets(b) {
+		key := k[:strings.LastIndexByte(k, '#')]
+		m[key] = append(m[key], off)
+	}
+	return m
+}
